@@ -618,7 +618,7 @@ pub fn run_ops_case(case: &Case) -> CaseResult {
 					let got = t.ticks as f64 + t.fraction;
 					let want = c.published.0 as f64 + c.published.1;
 					trace.f64(got);
-					if (got - want).abs() > 1e-9 * (1.0 + want.abs()) || !(0.0..1.0).contains(&t.fraction) {
+					if !((got - want).abs() <= 1e-9 * (1.0 + want.abs())) || !(0.0..1.0).contains(&t.fraction) {
 						res.fail(Violation::new(
 							"reference-clock",
 							"clock-time-wrong",
